@@ -387,7 +387,9 @@ def container_ops(self_move=False, node_forms=True):
     nopatch = st.integers(0, len(POOL) - 1).flatmap(lambda i: st.tuples(
         st.just("nopatch"), ctgt, st.just(i), G.model_recipe(pool_class(i)[3], 1, dates="date", objects=False),
         st.sampled_from(["attach", "attach", "attach", "detach", "set", "setattr"])))
-    bnd = st.one_of(bnd, bnd, bnd, nopatch, nopatch, st.just(("detach_all",)), st.tuples(st.just("del_root"), cref))
+    bnd = st.one_of(bnd, bnd, bnd, nopatch, nopatch, st.just(("detach_all",)), st.tuples(st.just("del_root"), cref),
+                    st.tuples(st.just("copy_root"), fresh, st.booleans()),
+                    st.tuples(st.just("set_node"), cref, fresh, st.sampled_from(["node", "raw", "dtype"])))
     # a patch that consists of exactly one small change (between two boundaries)
     one = st.one_of(st.tuples(st.just("setattr"), st.just("/"), st.sampled_from(["k", "u"]), cvalue),
                     st.tuples(st.just("delattr"), st.just("/"), cref),
@@ -683,6 +685,46 @@ class CSession:
             self.step([op[3]])
             self.classes.add("single_change_patch")
             return
+        elif kind == "copy_root":
+            # the whole container copied into a new group of itself (snapshot of the user tree and its metadata)
+            dst_abs = "/" + op[1]
+            without_meta = op[2]
+            if tree.lookup(dst_abs) is not None or any(s_.startswith(PREF) for s_ in split(dst_abs)):
+                return
+
+            def fm(model):
+                snap = model.tree.root.clone()
+                model.tree._parent_for_create(dst_abs)
+                model.tree._create(dst_abs, snap)
+                if not without_meta:
+                    for p_ in list(model.meta):
+                        if p_ != dst_abs and not p_.startswith(dst_abs + "/"):
+                            model.meta[dst_abs + (p_ if p_ != "/" else "")] = {k: dict(v) for k, v in model.meta[p_].items()}
+
+            kw = {"without_meta": True} if without_meta else {}
+            if self.run_all(lambda ti, t: t.mc.copy("/", dst_abs, **kw), fm, "copy:root", dict(dst=dst_abs, without_meta=without_meta)):
+                self.classes.add("copy_root")
+        elif kind == "set_node":
+            # a node object (or a datatype) as value: would be a hard link / a named type, which the container cannot
+            # keep track of - refused by the IH5 driver, so refused everywhere, without effect
+            nodes_ = self._nodes()
+            if not nodes_:
+                return
+            src = nodes_[op[1] % len(nodes_)]
+            dst_abs = "/" + op[2]
+            if tree.lookup(dst_abs) is not None or any(s_.startswith(PREF) for s_ in split(dst_abs)):
+                return
+
+            def fm(model):
+                raise OpFails("links and named types are not supported")
+
+            def fr(ti, t):
+                import numpy as np
+                v = t.mc[src] if op[3] == "node" else (t.mc.__wrapped__[src] if op[3] == "raw" else np.dtype("int32"))
+                t.mc[dst_abs] = v
+
+            self.run_all(fr, fm, f"set:{op[3]}-value", dict(src=src, dst=dst_abs))
+            self.classes.add("node_value_refused")
         elif kind == "del_root":
             # deleting the root group is refused on a plain tree (and must not cost anything here either)
             groups = tree.paths("g")
